@@ -1,0 +1,24 @@
+//go:build verif
+
+package kmipclient
+
+import "sync/atomic"
+
+// Verification instrumentation (build tag "verif" only): named yield points at which a
+// test harness can park the calling goroutine to impose a chosen interleaving.
+
+var verifYieldFn atomic.Value // func(string)
+
+// SetVerifYield installs (or, with nil, removes) the function called at every yield point.
+func SetVerifYield(f func(point string)) {
+	if f == nil {
+		f = func(string) {}
+	}
+	verifYieldFn.Store(f)
+}
+
+func verifYield(point string) {
+	if f, ok := verifYieldFn.Load().(func(string)); ok && f != nil {
+		f(point)
+	}
+}
